@@ -300,6 +300,15 @@ func (p *Pipe) StallS2CFrom(off int64) {
 //go:norace
 func (p *Pipe) DripS2CFrom(off int64, dt int64) { p.s2c.dripAt = off; p.s2c.dripNs = dt; p.s2c.dripT0 = -1 }
 
+// ResetC2SFrom: the connection is reset when the client writes the byte at offset off.
+//
+//go:norace
+func (p *Pipe) ResetC2SFrom(off int64) {
+	if !p.f.Reset || off < p.f.ResetAt {
+		p.f.Reset, p.f.ResetAt = true, off
+	}
+}
+
 // StallC2SFrom: the server stops reading at offset off.
 //
 //go:norace
